@@ -1,15 +1,16 @@
 """C13 - see properties.jsonl; DESIGN.md section 5."""
 from ._generic import run_property
 
-EXPLANATION = 'Bounded stand-in: to_pandas(filters, row_filter=True|mask) equals the full read restricted to the satisfying rows (oracle: plain pandas on the source frame), count(row_filter=True) equals its length, masks select exactly the masked rows.'
+EXPLANATION = 'Mixed. P (from the real source of api.py, for every number of groups / atoms / row groups): the fold steps of _column_filter (OR accumulator starts False, each group ORs in the AND of its atoms, the AND accumulator starts True for EVERY group, flat list = one AND group, operators per class), _columns_from_filters, the mask cut into per-row-group pieces that tile the mask, wrong-length mask raises before any read, count(row_filter=True) evaluates the same selection as to_pandas; dropped partition atoms and unknown operators counting as True are refuted = known findings. The induction from fold steps to the whole predicate is argued, not mechanised. B (labelled bounded): to_pandas(filters, row_filter=True|mask) equals the full read restricted to the satisfying rows (oracle: plain pandas on the source frame), count(row_filter=True) equals its length, masks select exactly the masked rows.'
 
 
 def p_parts():
-    return []
+    from ._rowfilter import p_rowfilter
+    return [p_rowfilter]
 
 
 def run(ctx):
-    return run_property(ctx, 'exploration', EXPLANATION, p_parts=p_parts(), b_modules=['c13_exact_rows'],
+    return run_property(ctx, 'other', EXPLANATION, p_parts=p_parts(), b_modules=['c13_exact_rows'],
                         assumptions=["pandas / numpy / cramjam behaviour inside every opaque value",
                                      "the oracle (plain pandas / the spec library under /verif/spec) is a faithful reading of the property"],
                         trusted=["bounded layer: enumerated inputs only; nothing outside the stated bound is covered"])
